@@ -44,9 +44,26 @@ ObserveMap(job) ==
   IN [id |-> job.id, ismap |-> TRUE, zipok |-> zipok, combos |-> combos,
       results |-> [c \in 1..Len(combos) |-> one(c)]]
 
+\* a sequence of runs (job.seq = runner modes) sharing ONE cache backend of capacity job.cap
+RECURSIVE RunSeq(_, _, _, _)
+RunSeq(job, k, cache, acc) ==
+  IF k > Len(job.seq) THEN acc
+  ELSE LET w == [WorldOf(job) EXCEPT !.cache = cache, !.cap = job.cap]
+           r == RunProg(job.prog, "", job.provided, w, job.seq[k])
+       IN RunSeq(job, k + 1, r.w.cache, Append(acc, r))
+ObserveSeq(job) ==
+  LET rs == RunSeq(job, 1, <<>>, <<>>)
+  IN [id |-> job.id, isseq |-> TRUE,
+      runs |-> [k \in 1..Len(rs) |->
+                 [status |-> rs[k].status, values |-> FilterOut(job.prog, rs[k].vals, job.select), err |-> rs[k].err,
+                  calls |-> rs[k].calls, hits |-> rs[k].w.hits]],
+      aux |-> Aux(Prop, job)]
+
 Init == tid \in 1..Len(Jobs) /\ res = "none"
 Next == /\ res = "none"
-        /\ res' = ToJson(IF Jobs[tid].map.over # <<>> THEN ObserveMap(Jobs[tid]) ELSE Observe(Jobs[tid]))
+        /\ res' = ToJson(IF Jobs[tid].map.over # <<>> THEN ObserveMap(Jobs[tid])
+                         ELSE IF Jobs[tid].seq # <<>> THEN ObserveSeq(Jobs[tid])
+                         ELSE Observe(Jobs[tid]))
         /\ UNCHANGED tid
 Spec == Init /\ [][Next]_vars
 
